@@ -14,7 +14,7 @@ order-isomorphic to one scenario: the finite enumeration covers all inputs.
 import itertools
 import math
 
-from ..interp import Interp, World, Obj, Sym, PyVec, ThrowEx, Ref, ElemRef, Closure, NOT_HANDLED, \
+from ..interp import out_param, Interp, World, Obj, Sym, PyVec, ThrowEx, Ref, ElemRef, Closure, NOT_HANDLED, \
     Opaque, Cell
 from ..sir import pp, strip, AnalysisBroken
 
@@ -166,6 +166,19 @@ class ColView:
     def __init__(self, table, col):
         self.table = table
         self.col = col
+
+    def __deepcopy__(self, memo):
+        return self
+
+
+class RowView:
+    """xt::view(table, row, xt::range(lo, hi)) / xt::row(table, row): cells (row, lo..hi-1)"""
+
+    def __init__(self, table, row, lo, hi):
+        self.table = table
+        self.row = row
+        self.lo = lo
+        self.hi = hi
 
     def __deepcopy__(self, memo):
         return self
@@ -437,13 +450,13 @@ class RouterWorld(World):
             who = it.rv(it.eval(args[0], frame)) if args else CENTRE
             if who == PREV:
                 out.append(Obj("fastscapelib::neighbor", {"idx": PREV_NB, "distance": Sym("dist", "pn"), "status": 0}))
-                return out
+                return out_param(it, frame, args, 1, out)
             if who != CENTRE:
-                return out      # the neighbourhood of any other node is outside the scenario: none
+                return out_param(it, frame, args, 1, out)      # the neighbourhood of any other node is outside the scenario: none
             for n in self.sc.nbs:
                 out.append(Obj("fastscapelib::neighbor", {"idx": n.idx, "distance": Sym("dist", "n%d" % n.k),
                                                            "status": 0}))
-            return out
+            return out_param(it, frame, args, 1, out)
         if name in ("compute_dfs_indices_bottomup", "compute_dfs_indices_topdown",
                     "compute_bfs_indices_bottomup", "compute_donors"):
             self.skipped_calls.append(name)
@@ -462,6 +475,32 @@ class RouterWorld(World):
             c = it.rv(it.eval(args[1], frame))
             if isinstance(t, Table):
                 return ColView(t, c)
+        if bn in ("xt::view", "xt::row") and args:
+            t = it.rv(it.eval(args[0], frame))
+            if isinstance(t, Table) and t.ncols:
+                sel = [strip(a) for a in args[1:]]
+                row = it.rv(it.eval(sel[0], frame)) if sel else None
+                lo, hi = 0, t.ncols
+                ok = isinstance(row, int) and not isinstance(row, bool)
+                if len(sel) == 2:
+                    r = sel[1]
+                    while isinstance(r, dict) and r.get("k") == "construct" and len(r.get("a", [])) == 1:
+                        r = strip(r["a"][0])
+                    if isinstance(r, dict) and r.get("k") == "call" and r.get("bn") == "xt::range" and len(r.get("a", [])) == 2:
+                        lo = it.rv(it.eval(r["a"][0], frame))
+                        hi = it.rv(it.eval(r["a"][1], frame))
+                        ok = ok and all(isinstance(x, int) and not isinstance(x, bool) for x in (lo, hi))
+                    elif isinstance(r, dict) and r.get("k") == "call" and r.get("bn") == "xt::all":
+                        pass
+                    else:
+                        ok = False
+                elif len(sel) > 2:
+                    ok = False
+                if ok:
+                    if lo < 0 or hi > t.ncols or lo > hi:
+                        from ..interp import OutOfRange
+                        raise OutOfRange("router model: view of columns %d..%d of %s (%d columns)" % (lo, hi, t.name, t.ncols))
+                    return RowView(t, row, lo, hi)
         if bn == "std::fill_n" and len(args) == 3:
             a0 = it.rv(it.eval(args[0], frame))
             if isinstance(a0, FlatIter):
@@ -499,6 +538,14 @@ class RouterWorld(World):
                     o.fills.append((None, it.rv(it.eval(args[0], frame))))
                     o.cells.clear()
                     return None
+            if isinstance(o, RowView) and (name == "fill" or call.get("op") in ("=", "/=", "*=", "+=", "-=")) and len(args) == 1:
+                v = it.rv(it.eval(args[0], frame))
+                if isinstance(v, (RowView, ColView, Table, list)):
+                    raise AnalysisBroken("router model: array operand of a row view")
+                op_ = "=" if name == "fill" else call["op"]
+                for j in range(o.lo, o.hi):
+                    o.table[(o.row, j)] = v if op_ == "=" else it.arith(op_[0], o.table.get((o.row, j)), v)
+                return it.eval(obj, frame)
             if isinstance(o, ColView) and name == "fill":
                 o.table.fills.append((o.col, it.rv(it.eval(args[0], frame))))
                 for k in [k for k in o.table.cells if len(k) > 1 and k[1] == o.col]:
